@@ -307,7 +307,11 @@ impl Number {
     /// units, and possibly apply SI prefixes.
     pub fn prettify(&self, context: &Context) -> Number {
         let unit = self.pretty_unit(context);
-        if let Some(orig) = unit.as_single() {
+        // Prefixes are raised to the unit's power, which has to fit.
+        let single = unit
+            .as_single()
+            .filter(|&(_, power)| power.checked_abs().map_or(false, |power| power <= i32::MAX as i64));
+        if let Some(orig) = single {
             use std::collections::HashSet;
             let prefixes = [
                 "milli", "micro", "nano", "pico", "femto", "atto", "zepto", "yocto", "kilo",
